@@ -350,8 +350,8 @@ class GroupedList(list):
         self[group_idx] = group_member
 
         # replacing in the dict
-        self.content.update({group_member: self.content[group_leader][:]})
-        self.content.pop(group_leader)
+        group_content = self.content.pop(group_leader)
+        self.content.update({group_member: group_content[:]})
 
         # sorting things up
         self.sort_by(self)
